@@ -12,3 +12,5 @@ open SemantivaModel.Residue
 #print axioms SemantivaModel.Tie.C18.C18_registry
 #print axioms SemantivaModel.Tie.C18.C18_registry_growth
 #print axioms SemantivaModel.Tie.C18.C18_channels
+#print axioms cached_size_bound
+#print axioms uncached_unbounded
